@@ -95,6 +95,9 @@ func (fr *Frame) call(c *ssa.CallCommon, instr ssa.Instruction, st *State, reach
 		// function value: try to resolve
 		callee, bindings = fr.resolveFuncValue(c.Value, st)
 		if callee == nil {
+			if cands := funcCandidates(c.Value); len(cands) > 0 && len(cands) <= 4 {
+				return fr.dispatchCall(c, cands, args, st, reach, instr)
+			}
 			sig := c.Value.Type().Underlying().(*types.Signature)
 			return fr.havocCall("function value "+c.Value.Name(), sig, st)
 		}
@@ -775,4 +778,82 @@ func labelSuffix(c Clause) string {
 		return "." + c.Name
 	}
 	return fmt.Sprintf(".L%d", c.Line)
+}
+
+
+// funcCandidates: the functions a function-typed local can hold (every store
+// to it stores a named function).
+func funcCandidates(v ssa.Value) []*ssa.Function {
+	u, ok := v.(*ssa.UnOp)
+	if !ok {
+		return nil
+	}
+	a, ok := u.X.(*ssa.Alloc)
+	if !ok {
+		return nil
+	}
+	var out []*ssa.Function
+	for _, r := range *a.Referrers() {
+		switch x := r.(type) {
+		case *ssa.Store:
+			if x.Addr != ssa.Value(a) {
+				return nil
+			}
+			f, ok := x.Val.(*ssa.Function)
+			if !ok {
+				return nil
+			}
+			dup := false
+			for _, o := range out {
+				if o == f {
+					dup = true
+				}
+			}
+			if !dup {
+				out = append(out, f)
+			}
+		case *ssa.UnOp, *ssa.DebugRef:
+		default:
+			return nil
+		}
+	}
+	return out
+}
+
+// dispatchCall case-splits a call through a function value over its possible targets.
+func (fr *Frame) dispatchCall(c *ssa.CallCommon, cands []*ssa.Function, args []Val, st *State, reach Term, instr ssa.Instruction) Val {
+	vc := fr.vc
+	fv := fr.val(c.Value, st).(*FV).Term()
+	var edges []inEdge
+	var results []Val
+	var conds []Term
+	for _, f := range cands {
+		cond := mkEq(fv, vc.funcID(f))
+		conds = append(conds, cond)
+		r := vc.sc.Def("dispatch", mkAnd(reach, cond))
+		sti := st.clone()
+		res := fr.callStatic(f, nil, args, sti, r, instr)
+		edges = append(edges, inEdge{r, sti})
+		results = append(results, res)
+	}
+	fr.oblige("nilfunc", reach, mkOr(conds...), "call through a function value that holds one of its assigned functions")
+	merged, _ := vc.mergeStates(edges)
+	for a, v := range st.Locals {
+		if _, ok := merged.Locals[a]; !ok {
+			merged.Locals[a] = v
+		}
+	}
+	st.Heap, st.Alloc, st.Locals = merged.Heap, merged.Alloc, merged.Locals
+	var acc Val
+	for i := len(results) - 1; i >= 0; i-- {
+		if results[i] == nil {
+			continue
+		}
+		if acc == nil {
+			acc = results[i]
+		} else {
+			acc = vc.mergeVal(edges[i].reach, results[i], acc, "dispatch")
+		}
+	}
+	return acc
 }
